@@ -274,11 +274,13 @@ def countFields (d : Doc) : Nat :=
     | .op _ ss => countFieldsSels ss.sels
     | .frag f => countFieldsSels f.ss.sels)).sum
 
-/-- Enough steps: every state is expanded at most once (`2·F²` keys) and each expansion pushes
-at most `F²` successors; plus the initial work list. -/
+/-- Enough steps (proved: `specConflictB_isSome`): every state is expanded at most once — at most
+`2·F²` keys, `F` = number of field nodes — and each expansion pushes at most `(3F)²` successors
+(a merged set has at most `3F` fields: two sub-selections and every fragment once); plus the
+initial work list. -/
 def specFuel (s : Schema) (d : Doc) : Nat :=
   let f := countFields d
-  (2 * f * f + 1) * (f * f + 1) + (initStates s d).length + 1
+  (2 * (f * f) + 1) * (9 * (f * f) + 1) + (initStates s d).length + 1
 
 /-- `some true`: the specification rejects the document; `none` cannot happen (fuel). -/
 def specConflictB (s : Schema) (d : Doc) : Option Bool :=
